@@ -268,29 +268,36 @@ def _check_array_chunks(H, sect, m, tag="array"):
         vals = [F.M.unpack(code, payload[i * sz:(i + 1) * sz])[0] for i in range(n)] if len(payload) == n * sz else None
         want = [getattr(v, "value", v) for v in arr.values]
         H.check(f"{tag}.{ch['name']}.elements_little_endian_in_row_order", vals is not None and H.eq(vals, want))
-    if hasattr(m, "drawn_waveform"):
-        # [doc: "Drawn waveform chunk"] CHNM 0: 32 frames of signed 8-bit mono at 44100 Hz; a file without
-        # it denotes the documented default waveform
-        samples = list(m.drawn_waveform.samples)
-        pos = [i for i, x in enumerate(ids) if x == b"CHNM" and F.dec_u32(sect[i][1]) == 0]
-        if not pos:
-            H.check("drawn_waveform.absent_only_if_documented_default", H.eq(samples, F.DRAWN_WAVEFORM_DEFAULT))
-        else:
-            i = pos[0]
-            H.check("drawn_waveform.CHDT_follows", ids[i + 1:i + 2] == [b"CHDT"])
-            data = sect[i + 1][1]
-            H.check("drawn_waveform.32_frames", len(data) == 32)
-            if len(data) == 32:
-                H.check("drawn_waveform.signed_8bit_samples", H.eq([H.ite(b >= 128, b - 256, b) for b in data], samples))
-            # CHFF / CHFR are optional companions (SunVox itself writes only CHFR here); when present
-            # they must state the fixed format (mono 8-bit) and rate (44100)
-            for j in (i + 2, i + 3):
-                if j < len(ids) and ids[j] == b"CHFF":
-                    H.check("drawn_waveform.format_mono_8bit", F.dec_u32(sect[j][1]) == 1)
-                elif j < len(ids) and ids[j] == b"CHFR":
-                    H.check("drawn_waveform.rate_44100", F.dec_u32(sect[j][1]) == 44100)
-                else:
-                    break
+    check_drawn_waveform(H, sect, m)
+
+
+def check_drawn_waveform(H, sect, m):
+    """[doc: "Drawn waveform chunk"] for Generator / AnalogGenerator sections (used by C03 and C06)."""
+    if not hasattr(m, "drawn_waveform"):
+        return
+    ids = _ids(sect)
+    # [doc: "Drawn waveform chunk"] CHNM 0: 32 frames of signed 8-bit mono at 44100 Hz; a file without
+    # it denotes the documented default waveform
+    samples = list(m.drawn_waveform.samples)
+    pos = [i for i, x in enumerate(ids) if x == b"CHNM" and F.dec_u32(sect[i][1]) == 0]
+    if not pos:
+        H.check("drawn_waveform.absent_only_if_documented_default", H.eq(samples, F.DRAWN_WAVEFORM_DEFAULT))
+    else:
+        i = pos[0]
+        H.check("drawn_waveform.CHDT_follows", ids[i + 1:i + 2] == [b"CHDT"])
+        data = sect[i + 1][1]
+        H.check("drawn_waveform.32_frames", len(data) == 32)
+        if len(data) == 32:
+            H.check("drawn_waveform.signed_8bit_samples", H.eq([H.ite(b >= 128, b - 256, b) for b in data], samples))
+        # CHFF / CHFR are optional companions (SunVox itself writes only CHFR here); when present
+        # they must state the fixed format (mono 8-bit) and rate (44100)
+        for j in (i + 2, i + 3):
+            if j < len(ids) and ids[j] == b"CHFF":
+                H.check("drawn_waveform.format_mono_8bit", F.dec_u32(sect[j][1]) == 1)
+            elif j < len(ids) and ids[j] == b"CHFR":
+                H.check("drawn_waveform.rate_44100", F.dec_u32(sect[j][1]) == 44100)
+            else:
+                break
 
 
 def _pattern_cases(tier):
